@@ -55,6 +55,11 @@ def check_C18(tier):
     res.add_failures(fails, "direct-client-gone")
     res.traces += summ["executions"]
     res.evaluations += summ["executions"]
+    # byte sizes around the bridge's copy buffer for what an upgraded service says first (refines `greet`)
+    fails, summ, _ = run_vh(vh, ["bridge", "--rawsweep"], [], timeout=900, env=env)
+    res.add_failures(fails, "raw-sizes")
+    res.traces += summ["executions"]
+    res.evaluations += summ["executions"]
     res.nontrivial = {json.dumps([c["mode"], c["reqs"], c["payload"], c["pipelined"]]) for c in cases if len(c["reqs"]) >= 1}
     for c in resolver[40:400:120]:
         res.sample({"mode": c["mode"], "requests": ["%s->%s" % (q["k"], q["svc"]) for q in c["reqs"]], "pipelined": c["pipelined"], "payload": c["payload"], "exit": c["exit"]})
